@@ -8,8 +8,16 @@ use std::sync::{Arc, Mutex};
 
 /// adversarial steps per invocation before the scheduler turns fair
 pub const N_ADV: usize = 20_000;
-/// fair round-robin steps within which the invocation must then finish
+/// fair round-robin steps within which the invocation must then finish: this many, or
+/// `FAIR_PER_FILE` per file of the source tree if that is more (the shipped pipeline takes about
+/// 40 steps per file; a tree of 900 files must not run out of steps because it is large)
 pub const N_FAIR: usize = 20_000;
+pub const FAIR_PER_FILE: usize = 400;
+
+/// total step budget of an invocation over a tree of `files` files
+pub fn step_budget(files: usize) -> usize {
+    N_ADV + N_FAIR.max(FAIR_PER_FILE * files)
+}
 
 #[derive(Clone, Debug, Serialize, Deserialize, PartialEq, Eq, Hash)]
 pub enum SchedSpec {
@@ -42,11 +50,12 @@ pub struct SimScheduler {
     change_points: Vec<usize>,
     low_water: u64,
     rr_last: usize,
+    budget: usize,
     pub state: Arc<Mutex<SchedState>>,
 }
 
 impl SimScheduler {
-    pub fn new(spec: SchedSpec) -> (Self, Arc<Mutex<SchedState>>) {
+    pub fn new(spec: SchedSpec, budget: usize) -> (Self, Arc<Mutex<SchedState>>) {
         let seed = match &spec {
             SchedSpec::Random { seed } => *seed,
             SchedSpec::Pct { seed, .. } => *seed,
@@ -70,6 +79,7 @@ impl SimScheduler {
                 change_points,
                 low_water: u64::MAX / 4,
                 rr_last: 0,
+                budget,
                 state: state.clone(),
             },
             state,
@@ -108,7 +118,7 @@ impl Scheduler for SimScheduler {
         // The hard stop after N_ADV + N_FAIR steps is shuttle's own step bound (it unwinds the
         // runner and leaks the blocked coroutines instead of running their destructors, which may
         // themselves contain scheduling points). This is only a second line of defence.
-        if step >= 2 * (N_ADV + N_FAIR) {
+        if step >= 2 * self.budget {
             self.state.lock().unwrap().no_progress = true;
             return None;
         }
